@@ -29,6 +29,9 @@ type C19Event struct {
 type C19Scenario struct {
 	Start  string     `json:"start"` // empty | fresh | old
 	Events []C19Event `json:"events"`
+	// Span > 0: every header verifies non-adjacent headers only up to Span heights ahead, so a head further away
+	// comes back from the trusted peers with a soft VerifyError and is taken through bifurcation
+	Span int `json:"span,omitempty"`
 }
 
 const (
@@ -38,7 +41,8 @@ const (
 )
 
 func genC19(t *rapid.T) C19Scenario {
-	s := C19Scenario{Start: rapid.SampledFrom([]string{"empty", "fresh", "fresh", "old"}).Draw(t, "start")}
+	s := C19Scenario{Start: rapid.SampledFrom([]string{"empty", "fresh", "fresh", "old"}).Draw(t, "start"),
+		Span: rapid.SampledFrom([]int{0, 0, 0, 3}).Draw(t, "span")}
 	n := rapid.IntRange(3, 25).Draw(t, "nevents")
 	for i := 0; i < n; i++ {
 		var ev C19Event
@@ -66,7 +70,11 @@ func genC19(t *rapid.T) C19Scenario {
 
 func runC19(t *testing.T, s C19Scenario) (res Result) {
 	bubble(t, func() {
-		chain := newSyncChain("c19", c19Tip0+3400, c19Tip0, c19Delta, nil)
+		var spans []uint64
+		if s.Span > 0 {
+			spans = []uint64{uint64(s.Span)}
+		}
+		chain := newSyncChain("c19", c19Tip0+3400, c19Tip0, c19Delta, spans)
 		e, err := newSyncEnv(chain, c19Tip0, c19Delta, nil,
 			hsync.WithBlockTime(c19Delta), hsync.WithTrustingPeriod(c19Trusting),
 			hsync.WithSyncFromHeight(c19Tip0-300), hsync.WithPruningWindow(10_000*time.Hour))
